@@ -15,6 +15,9 @@ RULE = ("One case = one history against a fresh ConfigManager: a registry of 2-7
         "delete / tick (1..30 min around the 15 min idle limit) / rollback-to-version / commit with a fault plan "
         "(k-th Apply fails for k=1..4, routing-daemon test fails, reload fails, startup-file write fails, version "
         "write fails, and pairs of these). Session ids are mostly the live one, sometimes stale or never issued. "
+        "In 30% of the cases the manager is first brought up from a startup file (real LoadStartupConfig/LoadYAML) that "
+        "carries the registered plugin namespace verif.c13 (typed pointer in cfg.Plugins, or the production variant "
+        "running = startupConfig) and the registry has handlers on its leaves. "
         "Named boundary classes are emitted first (every failure point x position, retry after failure, "
         "set-after-failed-persist, empty diff, dependency satisfied from running only, uint16/uint32 wrap). "
         "Concurrent cases (1 in 6): 2-3 goroutines race create/set/commit/close/read on their own sessions; the driver "
@@ -26,7 +29,9 @@ TRUSTED = ["the schema table in props/C13.py (kind and container prefixes of eac
            "the routing daemon is a shell script that fails on request; handler Apply fails on the k-th call",
            "idle time is injected by moving lastActivity back by whole minutes (the boundary at exactly 15 min is "
            "therefore 'expired': real time has advanced by some nanoseconds)"]
-ASSUMPTIONS = ["path segments contain no '.', '_dot_' or wildcard-typed encodings (generic <*> wildcards only)",
+ASSUMPTIONS = ["plugin-namespace leaves: no zero values, integers below 2^53 and never the same integer twice in a case "
+               "(a candidate holds plugin configs as untyped JSON maps: ints come back as float64)",
+               "path segments contain no '.', '_dot_' or wildcard-typed encodings (generic <*> wildcards only)",
                "no two registered patterns match the same path unless one of them equals it literally",
                "string values are valid UTF-8 (deepCopyConfig is a JSON round trip and would rewrite others)",
                "whole-container sets (interfaces.<*> with a struct value) and LoadConfig are not generated"]
@@ -57,6 +62,11 @@ SCHEMA = {
     "_internal.unnumbered.<*>": ("N", "-"),
 }
 PATS = sorted(SCHEMA)
+# leaves of the registered plugin namespace verif.c13 (typed *c13PluginConfig after LoadYAML, an untyped map in
+# every candidate because deepCopyConfig is a JSON round trip); never used as dependency targets
+PLUGIN = {"verif.c13.message": ("A", "2"), "verif.c13.note": ("A", "2"), "verif.c13.enabled": ("A", "2"),
+          "verif.c13.limit": ("A", "2")}
+SCHEMA.update(PLUGIN)
 WILDS = ["eth1", "eth2", "lo0", "blue"]
 
 
@@ -72,7 +82,18 @@ VALUES = {
     "S": [hx("ab"), hx("uplink"), hx(""), hx("x y"), hx("10.0.0.1"), "i42", "i-7", "i0", "u9", "b1", "b0"],
     "B": ["b1", "b0", "b1", hx("true"), hx("T"), hx("0"), hx("False"), hx("yes"), hx(""), "i1"],
     "N": ["b1", "i1", hx("x")],
+    "A": [hx("edited"), hx("x"), hx("orig"), "b1"],
 }
+_uniq = [1000]
+
+
+def plugin_value(rng, pat):
+    if pat.endswith(".limit"):
+        _uniq[0] += 1          # never the same number twice (see ASSUMPTIONS)
+        return rng.choice(["i%d", "u%d"]) % _uniq[0]
+    if pat.endswith(".enabled"):
+        return "b1"
+    return rng.choice([hx("edited"), hx("x"), hx("orig"), hx("second")])
 FAULTS = ["0:-"] * 10 + ["1:-", "2:-", "3:-", "4:-", "0:t", "0:r", "0:s", "0:v", "0:s", "0:v", "2:t", "0:tr", "0:sv",
                          "0:rs", "3:s", "0:tv"]
 
@@ -113,11 +134,24 @@ def rand_registry(rng):
     return pats, deps, frr
 
 
+def add_plugin_patterns(rng, pats, deps, frr):
+    extra = rng.sample(sorted(PLUGIN), rng.randint(1, 3))
+    for e in extra:
+        pats.append(e)
+        # a plugin leaf may depend on core patterns, nothing depends on it
+        deps.append(rng.sample(range(len(pats) - len(extra)), rng.choice([0, 0, 1])) if len(pats) > len(extra) else [])
+        frr.append(rng.random() < 0.3)
+
+
 def pick_value(rng, pat, guard):
+    if pat in PLUGIN:
+        return plugin_value(rng, pat)
     return rng.choice(VALUES[SCHEMA[pat][0]])
 
 
 def good_value(rng, pat):
+    if pat in PLUGIN:
+        return plugin_value(rng, pat)
     return {"I": "i%d" % rng.choice([1500, 9000, 1400, 68]), "U": "u%d" % rng.choice([1, 64, 65000]),
             "S": hx(rng.choice(["a", "core", "10.0.0.1"])), "B": "b1", "N": "b1"}[SCHEMA[pat][0]]
 
@@ -227,6 +261,15 @@ def boundary_cases():
     for v in ["i1511", "i1512", "i0", "i67048", "i65636"]:
         out.append(reg3 + ["guard", "eth1", "1500", "ops", "c", "s 1 interfaces.eth2.mtu i9000 0", "m 1 0:-",
                            "s 1 interfaces.eth1.mtu %s 0" % v, "m 1 0:-", "c"])
+    # plugin namespace in the running configuration: a candidate edit / discard / failed commit must not show
+    regp = ["reg", "3", "verif.c13.message", "A", "2", "-", "0", "verif.c13.limit", "A", "2", "-", "0",
+            "interfaces.<*>.mtu", "I", "1,2", "-", "0"]
+    for mode in ("typed", "prod"):
+        out.append(regp + ["plugin", mode, hx("orig"), "5", "ops", "c", "s @ verif.c13.message %s 0" % hx("edited"),
+                           "x @", "c", "s @ verif.c13.limit i7 0", "m @ 1:-", "m @ 0:-", "c",
+                           "s @ verif.c13.message %s 0" % hx("again"), "s @ interfaces.eth1.mtu i1500 0", "m @ 0:-"])
+    # without the namespace in cfg.Plugins the same Set is "field not found"
+    out.append(regp + ["ops", "c", "s @ verif.c13.message %s 0" % hx("edited"), "m @ 0:-"])
     return [" ".join(c) for c in out]
 
 
@@ -280,9 +323,15 @@ def gen_cases(rng, tier, budget):
         cases.append(conc_case(rng))
     for _ in range(n):
         pats, deps, frr = rand_registry(rng)
+        plug = rng.random() < 0.3
+        if plug or rng.random() < 0.05:
+            add_plugin_patterns(rng, pats, deps, frr)
         toks = mk_reg(rng, pats, deps, frr)
         guard = None
-        if "interfaces.<*>.mtu" in pats and rng.random() < 0.25:
+        if plug:
+            toks += ["plugin", rng.choice(["typed", "typed", "prod"]), hx(rng.choice(["orig", "hello", ""])),
+                     str(rng.choice([0, 5, 64]))]
+        elif "interfaces.<*>.mtu" in pats and rng.random() < 0.25:
             guard = ("eth1", rng.choice([1500, 1600, 9000]))
             toks += ["guard", guard[0], str(guard[1])]
         nops = rng.randint(4, 24)
@@ -300,6 +349,9 @@ def split_case(case):
     if t[p] == "guard":
         head = t[:p + 3]
         p += 3
+    if t[p] == "plugin":
+        head = t[:p + 4]
+        p += 4
     p += 1  # "ops"
     ops = []
     ar = {"c": 1, "x": 2, "d": 2, "s": 5, "t": 2, "b": 2, "m": 3}
@@ -328,6 +380,21 @@ def parse_step(s):
     return res, ([] if tr == "-" else tr.split(",")), delta
 
 
+def initial_R(head):
+    """projection of the initial running configuration of a 'plugin' case (what LoadStartupConfig produces)"""
+    if "plugin" not in head:
+        return "-"
+    k = head.index("plugin")
+    msg, lim = head[k + 2], int(head[k + 3])
+    es = ["interfaces/", "interfaces.eth0/", "interfaces.eth0.name=" + hx("eth0"),
+          "interfaces.eth0.description=" + hx("Management Interface"), "interfaces.eth0.enabled=b1", "verif.c13/"]
+    if msg != "s-":
+        es.append("verif.c13.message=" + msg)
+    if lim:
+        es.append("verif.c13.limit=i%d" % lim)
+    return ",".join(sorted(es))
+
+
 def known_signatures():
     import os
     out = set()
@@ -353,7 +420,7 @@ def monitor(case, line, tolerate=None):
     st = steps(line)
     if len(st) != len(ops):
         return None
-    R, C, L = "-", "-", "-"
+    R, C, L = initial_R(head), "-", "-"
     aliased = False          # after a tolerated startup-save failure the session shares running
     phantom = []             # paths of failed Sets that nevertheless created containers (tolerated)
     for i, (o, s) in enumerate(zip(ops, st)):
@@ -461,7 +528,7 @@ def signature(case, impl, models):
 
 def nontrivial(case, impl):
     if case.startswith("conc "):
-        return ",ok" in impl.split(" | ")[0] and "R=-" not in impl
+        return ",ok" in impl and "R=i" in impl.replace("R=-", "") or ("R=" in impl and "R=- " not in impl.split(" || ")[0])
     return any(parse_step(s)[1] for s in steps(impl))
 
 
